@@ -39,9 +39,18 @@ var (
 	e2eVersion int
 )
 
+// failingRequestRemedy: the versions built while it is set carry a second global remedy that fails on every
+// request (an authentication remedy whose account is not in the accounts section - the file passes validation);
+// the request message is then answered with an error and no actions. The transaction goes on all the same: the
+// proxy forwards the request and sends the response message, which must be handled with the request's version.
+var failingRequestRemedy bool
+
 func renderRetry(marker string, retryOn bool) []byte {
 	var b strings.Builder
 	b.WriteString("global:\n  remedies:\n")
+	if failingRequestRemedy {
+		fmt.Fprintf(&b, "    - name: %q\n      enabled: true\n      config:\n        authentication:\n          account: billing\n", "auth-"+marker)
+	}
 	fmt.Fprintf(&b, "    - name: %q\n      enabled: %v\n      config:\n        retry:\n          attempts: 1000\n          initial_cooldown_seconds: 1\n          cooldown_multiplier: 1\n          conditions:\n            status_code:\n              - from: 500\n                to: 599\n", "retry-"+marker, retryOn)
 	fmt.Fprintf(&b, "exporters:\n  file:\n    file_dir: %s\n    file_name: out.log\n", scratch)
 	return []byte(b.String())
@@ -123,6 +132,8 @@ type e2eEvent struct {
 	Op    string `json:"op"` // req | resp | reload
 	Txn   int    `json:"txn,omitempty"`
 	Retry bool   `json:"retry_on,omitempty"` // reload: does the new version enable the retry remedy
+	// FailReq (reload): the new version also carries a remedy that fails on every request
+	FailReq bool `json:"requests_fail_in_a_remedy,omitempty"`
 }
 
 type e2eTxn struct {
@@ -156,7 +167,7 @@ func genE2E() *rapid.Generator[e2eCase] {
 		for len(pendingReq)+len(pendingResp) > 0 {
 			switch k := rapid.IntRange(0, 9).Draw(t, "ev"); {
 			case k < 3:
-				c.Events = append(c.Events, e2eEvent{Op: "reload", Retry: rapid.Bool().Draw(t, "retry")})
+				c.Events = append(c.Events, e2eEvent{Op: "reload", Retry: rapid.Bool().Draw(t, "retry"), FailReq: rapid.IntRange(0, 2).Draw(t, "fail-req") == 0})
 			case k < 6 && len(pendingReq) > 0:
 				i := pendingReq[0] // requests in transaction order (a retried attempt comes after the first one)
 				pendingReq = pendingReq[1:]
@@ -213,7 +224,12 @@ func TestMessageHandlersE2E(t *testing.T) {
 			switch e.Op {
 			case "reload":
 				e2eVersion++
+				failingRequestRemedy = e.FailReq
+				if e.FailReq {
+					r.Class("version whose requests fail in a remedy")
+				}
 				pd, err := parse(renderRetry(fmt.Sprintf("v%d", e2eVersion), e.Retry))
+				failingRequestRemedy = false
 				if err != nil {
 					fmt.Println("VERIF-INFRA: cannot build policies:", err)
 					t.Fatalf("%v", err)
